@@ -30,8 +30,11 @@ def origin_headers(url, u, v):
         h.append((b'Expires', b'@NOW%+d@' % (url.get('date_skew', 0) + url['expires'])))
     if url.get('age') is not None:
         h.append((b'Age', b'%d' % url['age']))
-    if url.get('vary'):
-        h.append((b'Vary', url['vary'].encode()))
+    vary = url.get('vary')
+    if url.get('vary_switch') and v >= url['vary_switch'][0]:     # the origin changes its Vary list from this version on
+        vary = url['vary_switch'][1]
+    if vary:
+        h.append((b'Vary', vary.encode()))
     for k, val in url.get('extra', []):
         h.append((k.encode(), val.encode()))
     return h
